@@ -186,6 +186,10 @@ pub struct Sess {
     pub clean: bool,                                // the generator promises a fault-free history
     pub ncmds: u64,
     mem: Mem,
+    /// component `hostq`: a request is a whole burst, effects cannot be attributed to single
+    /// inputs; births are recognised by the id their store call shows (`nbirth_ts`)
+    pub burst_mode: bool,
+    nbirth_ts: BTreeMap<(String, i64), u64>,
 }
 
 /// build the application on the current runtime, report it Online and run to quiescence. With
@@ -314,6 +318,8 @@ impl Sess {
             clean: false,
             ncmds: 0,
             mem,
+            burst_mode: false,
+            nbirth_ts: BTreeMap::new(),
         }
     }
 
@@ -363,12 +369,24 @@ impl Sess {
         if v.is_empty() {
             return "-".into();
         }
-        // group by node (stable), sort runs of devStale inside a node
+        let mut out = vec![];
+        for (n, toks) in Self::canon_by_node(v) {
+            for t in toks {
+                out.push(format!("{}:{}", n, t));
+            }
+        }
+        out.join(";")
+    }
+
+    /// the effects grouped by node (nodes sorted, order within a node kept), runs of devStale
+    /// inside a node sorted by device
+    pub fn canon_by_node(v: &[(String, String)]) -> Vec<(String, Vec<String>)> {
         let mut nodes: Vec<String> = v.iter().map(|x| x.0.clone()).collect();
         nodes.sort();
         nodes.dedup();
-        let mut out = vec![];
+        let mut res = vec![];
         for n in nodes {
+            let mut out = vec![];
             let es: Vec<&String> = v.iter().filter(|x| x.0 == n).map(|x| &x.1).collect();
             let mut i = 0;
             while i < es.len() {
@@ -382,16 +400,17 @@ impl Sess {
                     }
                     run.sort();
                     for d in run {
-                        out.push(format!("{}:devStale({})", n, d));
+                        out.push(format!("devStale({})", d));
                     }
                     i = j;
                 } else {
-                    out.push(format!("{}:{}", n, es[i]));
+                    out.push(es[i].clone());
                     i += 1;
                 }
             }
+            res.push((n, out));
         }
-        out.join(";")
+        res
     }
 
     /// the property oracles, over what the implementation actually did
@@ -426,6 +445,17 @@ impl Sess {
                 .collect();
             match name {
                 "nodeBirth" => {
+                    if self.burst_mode {
+                        // the store call shows the id of the NBIRTH: C14 (an NBIRTH that is not strictly
+                        // newer reaches no store) and the bookkeeping `host` does per request line
+                        if let Some(t) = self.nbirth_ts.get(&(n.clone(), args[0])).copied() {
+                            if t <= *self.birth_ts.get(n).unwrap_or(&0) {
+                                out.fail("C14:stale-nbirth-ignored", "older-or-equal", format!("{} => {:?}", op, effs));
+                            } else if args[1] == 1 {
+                                self.birth_ts.insert(n.clone(), t);
+                            }
+                        }
+                    }
                     if args[1] == 1 {
                         self.node_life.insert(n.clone(), true);
                         self.last_applied_id.insert(n.clone(), None);
@@ -541,47 +571,46 @@ impl Sess {
         }
     }
 
-    pub fn exec(&mut self, op: &str, out: &mut Out) -> String {
-        let w: Vec<&str> = op.split(' ').collect();
-        let now = num(&w, "now");
-        let ev: Option<Event> = match w[1] {
+    /// the event a request line (`w[0]` = component name) delivers; `None` for `adv`
+    pub fn build_event(&self, w: &[&str], now: u64) -> Option<Event> {
+        match w[1] {
             "ev" => {
                 let node = w[2];
-                let ts = kv(&w, "ts").map(|x| x.parse::<u64>().unwrap());
-                let ans = kv(&w, "ans").unwrap_or("ok");
-                let id = kv(&w, "id").map(|x| x.parse::<u64>().unwrap()).unwrap_or(0);
+                let ts = kv(w, "ts").map(|x| x.parse::<u64>().unwrap());
+                let ans = kv(w, "ans").unwrap_or("ok");
+                let id = kv(w, "id").map(|x| x.parse::<u64>().unwrap()).unwrap_or(0);
                 Some(match w[3] {
                     "nbirth" => {
                         let t = ts.unwrap();
-                        let mut ms = vec![m_long("bdSeq", num(&w, "bd"), t, true), m_long("id", id, t, true)];
+                        let mut ms = vec![m_long("bdSeq", num(w, "bd"), t, true), m_long("id", id, t, true)];
                         ms.extend(ans_metric(ans, t, true));
                         self.node_event(node, MessageKind::Birth, payload(Some(t), Some(0), ms))
                     }
                     "ndeath" => {
-                        let ms = vec![m_long("bdSeq", num(&w, "bd"), now, false)];
+                        let ms = vec![m_long("bdSeq", num(w, "bd"), now, false)];
                         self.node_event(node, MessageKind::Death, payload(Some(now), None, ms))
                     }
                     "ndata" => {
                         let t = ts.unwrap();
                         let mut ms = vec![m_long("id", id, t, false)];
                         ms.extend(ans_metric(ans, t, false));
-                        self.node_event(node, MessageKind::Data, payload(Some(t), Some(num(&w, "seq")), ms))
+                        self.node_event(node, MessageKind::Data, payload(Some(t), Some(num(w, "seq")), ms))
                     }
                     "dbirth" => {
                         let t = ts.unwrap();
                         let mut ms = vec![m_long("id", id, t, true)];
                         ms.extend(ans_metric(ans, t, true));
-                        self.dev_event(node, kv(&w, "dev").unwrap(), MessageKind::Birth, payload(Some(t), Some(num(&w, "seq")), ms))
+                        self.dev_event(node, kv(w, "dev").unwrap(), MessageKind::Birth, payload(Some(t), Some(num(w, "seq")), ms))
                     }
                     "ddeath" => {
                         let t = ts.unwrap();
-                        self.dev_event(node, kv(&w, "dev").unwrap(), MessageKind::Death, payload(Some(t), Some(num(&w, "seq")), vec![]))
+                        self.dev_event(node, kv(w, "dev").unwrap(), MessageKind::Death, payload(Some(t), Some(num(w, "seq")), vec![]))
                     }
                     "ddata" => {
                         let t = ts.unwrap();
                         let mut ms = vec![m_long("id", id, t, false)];
                         ms.extend(ans_metric(ans, t, false));
-                        self.dev_event(node, kv(&w, "dev").unwrap(), MessageKind::Data, payload(Some(t), Some(num(&w, "seq")), ms))
+                        self.dev_event(node, kv(w, "dev").unwrap(), MessageKind::Data, payload(Some(t), Some(num(w, "seq")), ms))
                     }
                     x => panic!("bad host event {}", x),
                 })
@@ -591,7 +620,13 @@ impl Sess {
             "online" => Some(Event::Online),
             "adv" => None,
             x => panic!("bad host op {}", x),
-        };
+        }
+    }
+
+    pub fn exec(&mut self, op: &str, out: &mut Out) -> String {
+        let w: Vec<&str> = op.split(' ').collect();
+        let now = num(&w, "now");
+        let ev: Option<Event> = self.build_event(&w, now);
         let feeder = self.feeder.clone();
         let adv: u64 = if w[1] == "adv" { w[2].parse().unwrap() } else { 0 };
         self.rt.as_ref().expect("host session without own runtime").block_on(async move {
@@ -605,6 +640,52 @@ impl Sess {
             }
         });
         self.observe(op, out).1
+    }
+
+    /// component `hostq`: every event of the burst is handed to the event loop before anything is
+    /// handled; then run to quiescence (clock reading unchanged, tick alignment as `exec`)
+    pub fn run_burst(&mut self, evs: Vec<Event>, now: u64) {
+        let feeder = self.feeder.clone();
+        self.rt.as_ref().expect("host session without own runtime").block_on(async move {
+            set_clocks(now);
+            for e in evs {
+                feeder.push(e);
+            }
+            ev_tick().await;
+        });
+    }
+
+    pub fn run_adv(&mut self, now: u64, adv: u64) {
+        self.rt.as_ref().expect("host session without own runtime").block_on(async move {
+            set_clocks(now);
+            adv_ticks(now, adv).await;
+        });
+    }
+
+    /// a resequenceable message of the burst (payload timestamp by id, for the C06 oracle)
+    pub fn note_msg(&mut self, node: &str, id: i64, ts: u64) {
+        if id > 0 {
+            self.msg_ts.insert((node.to_string(), id), ts);
+        }
+    }
+    pub fn note_nbirth(&mut self, node: &str, id: i64, ts: u64) {
+        self.nbirth_ts.insert((node.to_string(), id), ts);
+    }
+    /// the effects since the last request in the order they happened; the schedule-independent
+    /// oracle clauses are run on them (`op` is only quoted in failure reports)
+    pub fn observe_burst(&mut self, op: &str, now: u64, out: &mut Out) -> Vec<(String, String)> {
+        let effs = self.effects();
+        self.oracle(op, &["hostq", "burst"], &effs, now, out);
+        effs
+    }
+    pub fn node_birthed(&self, n: &str) -> bool {
+        self.node_life.get(n) == Some(&true)
+    }
+    pub fn birthed_devices(&self, n: &str) -> Vec<String> {
+        self.dev_life.iter().filter(|(k, v)| k.0 == n && **v).map(|(k, _)| k.1.clone()).collect()
+    }
+    pub fn birth_ts_of(&self, n: &str) -> u64 {
+        self.birth_ts.get(n).copied().unwrap_or(0)
     }
 
     pub fn hub(&self) -> Hub {
@@ -663,7 +744,7 @@ pub fn cfg_default(to: &str, cd: u64, rq: u8) -> String {
     format!("ip=0 bd=1 un=1 ud=1 um=1 rf=1 rs=1 to={} cd={} rq={} q=1024", to, cd, rq)
 }
 
-fn cfg_random(rng: &mut Rng) -> (String, Option<u64>) {
+pub fn cfg_random(rng: &mut Rng) -> (String, Option<u64>) {
     let to = *rng.pick(&[None, Some(100u64), Some(250), Some(3000)]);
     let cd = *rng.pick(&[0u64, 0, 0, 50, 1_000_000_000]);
     let b = |r: &mut Rng| r.below(4).min(1); // mostly on
@@ -680,13 +761,13 @@ fn cfg_random(rng: &mut Rng) -> (String, Option<u64>) {
 
 /// one message of a publisher session, in publish order
 #[derive(Clone, Debug)]
-struct PMsg {
-    body: String, // e.g. "ndata seq=3 ts=.. id=.. ans=ok" without the node prefix
-    index: usize, // publish index within the session (1-based; NBIRTH is 0)
+pub struct PMsg {
+    pub body: String, // e.g. "ndata seq=3 ts=.. id=.. ans=ok" without the node prefix
+    pub index: usize, // publish index within the session (1-based; NBIRTH is 0)
 }
 
 /// a valid publisher session for one node: NBIRTH then `n` resequenceable messages
-fn session(rng: &mut Rng, bd: u64, birth_ts: u64, n: usize, ndev: u64, next_id: &mut u64) -> (String, Vec<PMsg>) {
+pub fn session(rng: &mut Rng, bd: u64, birth_ts: u64, n: usize, ndev: u64, next_id: &mut u64) -> (String, Vec<PMsg>) {
     *next_id += 1;
     let birth = format!("nbirth ts={} bd={} id={} ans=ok", birth_ts, bd, *next_id);
     let mut dev_up = vec![false; ndev as usize + 1];
@@ -713,7 +794,7 @@ fn session(rng: &mut Rng, bd: u64, birth_ts: u64, n: usize, ndev: u64, next_id: 
     (birth, v)
 }
 
-fn displaced(rng: &mut Rng, v: &[PMsg], d: u64) -> Vec<PMsg> {
+pub fn displaced(rng: &mut Rng, v: &[PMsg], d: u64) -> Vec<PMsg> {
     let mut keyed: Vec<(usize, usize)> = (0..v.len()).map(|i| (i + rng.below(d + 1) as usize, i)).collect();
     keyed.sort();
     keyed.into_iter().map(|x| v[x.1].clone()).collect()
